@@ -362,5 +362,7 @@ def run(ctx):
     rule_leader_assigns_all(ctx)
     rule_stale_drop(ctx)
     rule_subscribed_only(ctx)
+    from .common import rule_instance_state
+    rule_instance_state(ctx, ("aiokafka.consumer.",))
     rep.nd("pairwise disjointness across members (depends on the assignors' output, C14)")
     rep.nd("the group-wide revoke-before-assign ordering (relies on the broker's join barrier; only the per-member half is decided)")
